@@ -87,7 +87,9 @@ Faults == {<<"truncate", p, "">> : p \in {"0", "1", "2", "3", "4", "5", "mid", "
           (* an announced length beyond every fixed buffer whose bytes really arrive (70 000 bytes of padding) *)
           \cup {<<"length-pad", t, "">> : t \in {"1", "2", "3"}}
 Unsupported == {"int", "uint", "uintptr", "complex128", "map", "chan", "func", "nil-interface", "duration", "nil-pointer",
-                "struct-with-int", "nil-message", "non-pointer-message", "nil-bytes-pointer", "interface-field"}
+                "struct-with-int", "nil-message", "non-pointer-message", "nil-bytes-pointer", "interface-field",
+                \* values that contain themselves (the writer follows pointers and walks slices)
+                "cyclic-pointer", "cyclic-slice"}
 
 VARIABLE x
 Init == x = 0
